@@ -118,8 +118,10 @@ prop('C10', COMMON +
      'signature stored under k is built for k from the module stored under k), UPDATE-ORDER (dep_graph rebuilt from '
      'parsed_modules after the last source mutation and before recheck; recheck post-dominates entry; parsed_modules and '
      'global_cx mutated under the same keys), ERRORS-OVERWRITE (recheck re-reports the previous syntax errors before '
-     'overwriting errors[m]). Does not decide that the affected set is large enough (graph semantics).',
-     [incremental.run_sigkey, incremental.run_order, incremental.run_errors],
+     'overwriting errors[m]), DIRTY-COVERS (the dirty set handed to affected_set is built from every request component '
+     'under which parsed_modules is mutated; every module announced to recheck as re-parsed is parsed on every path). '
+     'Does not decide that the affected set is large enough (graph semantics).',
+     [incremental.run_sigkey, incremental.run_order, incremental.run_errors, incremental.run_dirty],
      ['affected_set (forward closure of the reverse closure of the dirty set) contains every module whose diagnostics can change'])
 
 prop('C03', COMMON +
